@@ -49,7 +49,7 @@ CLAIMED = {
                      "an independent transcription of the submission document pinned by its published vectors.",
                 note="Trusted: TLC, Blake.tla (published vectors each run), sampled messages, harness recording (canary)."),
     "C05": dict(level="exploration", design="5/C05", technique="trace validation of digests against executable TLA+ specifications of Skein/Threefish (TLC as oracle)",
-                text="Digests of Skein256/512/1024<N> over message-length sweeps and 25 output lengths (1..300 bytes, several output blocks, non-multiples of 8) are recomputed by TLC from Skein.tla/Threefish.tla, "
+                text="Digests of Skein256/512/1024<N> over message-length sweeps and every output length 1..136 bytes plus 160/200/256/257/300 and > 256 output blocks (8200 bytes) are recomputed by TLC from Skein.tla/Threefish.tla, "
                      "pinned by Skein 1.3 reference digests and the Threefish NIST vectors.",
                 note="Trusted: TLC, Skein.tla/Threefish.tla (published vectors each run), sampled messages and output lengths."),
     "C06": dict(level="exploration", design="5/C06", technique="trace validation of digests against an executable TLA+ specification of JH in its nibble-oriented definition (TLC as oracle)",
@@ -59,11 +59,11 @@ CLAIMED = {
     "C07": dict(level="exploration", design="5/C07", technique="trace validation of digests against an executable TLA+ specification of Groestl on the byte matrix (TLC as oracle)",
                 text="Digests of all four Groestl variants over message-length sweeps (incl. the <=8-bytes-left boundary) are recomputed by TLC from Groestl.tla (byte-matrix definition, S-box derived), pinned by NIST KAT digests.",
                 note="Trusted: TLC, Groestl.tla (NIST KATs each run), sampled messages."),
-    "C09": dict(level="exploration", design="5/C09", technique="trace validation of encrypt_block events against Threefish.tla (TLC as oracle)",
-                text="Ciphertexts of Threefish256/512/1024 for structured and random (key, tweak, block) triples, with and without no_unroll, are recomputed by TLC from Threefish.tla (pinned by NIST vectors).",
+    "C09": dict(level="exploration", design="5/C09", technique="trace validation of encrypt_block events against Threefish.tla (TLC as oracle), including inputs crafted by the specification (CraftTF.tla) to put chosen internal states in front of every round",
+                text="Ciphertexts of Threefish256/512/1024 for structured and random (key, tweak, block) triples, with and without no_unroll, are recomputed by TLC from Threefish.tla (pinned by NIST vectors). CraftTF.tla runs the specification backwards/forwards from chosen internal states (zero, equal, all-ones words in front of each round) and the resulting plaintexts/ciphertexts are fed to the real cipher.",
                 note="Trusted: TLC, Threefish.tla, sampled inputs."),
-    "C10": dict(level="exploration", design="5/C10", technique="trace validation of both composition orders and of decrypt_block against an independently written TLA+ inverse",
-                text="For every sampled triple D(E(x)) = x and E(D(x)) = x on the real code and D(x) equals Threefish.tla!Decrypt, an inverse written independently of Encrypt.",
+    "C10": dict(level="exploration", design="5/C10", technique="trace validation of both composition orders and of decrypt_block against an independently written TLA+ inverse, including spec-crafted inputs (CraftTF.tla) that reach chosen internal states",
+                text="For every sampled triple D(E(x)) = x and E(D(x)) = x on the real code and D(x) equals Threefish.tla!Decrypt, an inverse written independently of Encrypt. Inputs include plaintexts and ciphertexts computed by CraftTF.tla so that encryption and decryption pass through internal states with zero / equal / all-ones words in front of every round (unreachable by sampling: 2^-64 per word).",
                 note="Trusted: TLC, Threefish.tla, sampled inputs."),
     "C08": dict(level="model_checking", design="5/C08", technique="TLC model checking of block-buffered hasher models (all partitions, clone/reset) + replay of every edge of the real-size graph on 15 hash types + TLC trace validation with ghost messages",
                 text="HashBuf.tla / HashInst.tla are checked exhaustively by TLC at a scaled block size (state is a function of the message, digests equal OneShot(ghost message), instance independence, per-kind "
@@ -72,7 +72,7 @@ CLAIMED = {
                 note="Trusted: TLC; abstract compression in the models; one-shot digests tied to the specifications by C04-C07; harness recording (canary episodes)."),
     "C17": dict(level="model_checking", design="5/C17", technique="TLC model checking of counter logic at scaled word widths + TLC trace validation of fast-forwarded and really streamed boundary crossings against the hash specifications",
                 text="HashBuf.tla's CounterExact/FinalRight are checked by TLC for every length across several wraps of a scaled counter word. On the real code, hook H2 places the counter just below 2^32 / 2^64 bits, "
-                     "2^8 / 2^16 / 2^32 blocks, 2^32 bytes and the real increment code crosses the boundary; 512 MiB (BLAKE, JH) and 4 GiB (Skein) messages are really streamed with a checkpoint. "
+                     "2^8 / 2^16 / 2^32 blocks, 2^32 bytes and the real increment code crosses the boundary; 512 MiB (BLAKE, JH) and 4 GiB (Skein) messages are really streamed with a checkpoint, and single update calls of 2^32+k bytes are checkpointed and compared with the chunk-fed instance. "
                      "TLC recomputes every digest from (chaining value, amount absorbed, remaining bytes) with Blake/JH/Groestl/Skein.tla.",
                 note="Trusted: TLC, the hash specifications, hook H2 accessors, soundness of fast-forward (compression conformance is per (h, m, t) triple)."),
     "C03": dict(level="model_checking", design="5/C03", technique="TLC exhaustive check of the dispatch decision procedure + conformance of observed Machine selections + cross-configuration trace validation against configuration-free specifications",
@@ -87,7 +87,7 @@ CLAIMED = {
                 note="Trusted: mmap/mprotect semantics (self-test: a deliberate 1-byte over-read must crash on every run), canaries, reference results validated by the other checks."),
     "C18": dict(level="model_checking", design="5/C18", technique="TLC model checking of the once-initialisation protocol + TLC trace validation of interleaved multi-instance histories (product of ideal specs) and of cold multi-threaded first-use results",
                 text="Concurrency.tla (Once cells, racy feature cache) is explored exhaustively by TLC. On the code, one thread interleaves mixed cipher/hasher instances and TLC validates with the product monitor TraceSystem.tla; "
-                     "hundreds of cold processes release 2..64 threads making the first calls into every algorithm, and every distinct (input, output) is validated against the function specifications.",
+                     "hundreds of cold processes release 2..64 threads making the first calls into every algorithm, 4..48 threads repeat their own hash / cipher operations concurrently (steady state), and every distinct (input, output) is validated against the function specifications.",
                 note="Trusted: TLC; the OS scheduler picks real interleavings (a narrow race can be missed); lazy_static/Once/std_detect are modelled, not hooked."),
     "C20": dict(level="exploration", design="5/C20", technique="TLC enumeration of the feature lattice (closures of every request, generated from cargo metadata) realised with cargo check/build; functional events of feature-selected builds validated by configuration-free specifications",
                 text="Features.tla plus a module generated from cargo metadata let TLC enumerate every feature request of every crate and fold them onto closures (57 configurations today); each is built with cargo on the stable "
